@@ -6,12 +6,19 @@ trees — every use of the mode is either "reject only when the mode is off", "w
 value that the mode-off path rejects", or absent — and `mono_sound` shows that a record accepted with
 the mode off is accepted with it on and ends up identical.  `decide` establishes `Mono` for the rule
 tree regenerated from every record's Validate().
-Reader level: the only other use of the mode is the IBM1047 byte substitution applied to addendum A
-lines, since the fix recorded in known_findings.json only for EBCDIC input; both modes are run on
-every generated input by the correspondence stream.
+Reader level (proved, for every input): `Relaxes m0 m1` (Lemmas/Relax.lean) abstracts what the mode
+changes - a validator that accepts at least as much with the same outcome, and a byte substitution the
+mode-off reader never applies.  `gen_relaxes` establishes it for the regenerated model (mode off vs
+mode on) from `Mono`; `C19_read_relaxes` lifts it through the whole reader: an input read without error
+with the mode off is read without error with the mode on, into the same file.  For ASCII input there is
+no further hypothesis (`C19_read_relaxes_ascii`); for EBCDIC input the hypothesis is that no addendum A
+line contains one of the three substituted bytes (`NoSubst`) - with such a byte the two modes decode
+different characters by design (that is the mode's purpose), so the statement cannot hold there; both
+modes are run on every generated input by the correspondence stream.
 -/
 import IclModel.Lemmas.Frb
-import IclModel.Gen.Rules
+import IclModel.Lemmas.Relax
+import IclModel.GenModel
 namespace Icl.C19
 open Icl
 
@@ -68,5 +75,110 @@ theorem off_never_normalises :
     ((sites Gen.Rules.checkDetailAddendumA ++ sites Gen.Rules.imageViewDetail).all fun s =>
       s.assign.isNone || s.path.any fun p => (p.1 == .frb && p.2) ||
         (match p.1 with | .and _ .frb => p.2 | _ => false)) = true := by decide
+
+/-- every regenerated rule tree (those the reader validates and the two user records) is `Mono` -/
+theorem allRules_mono : Gen.allRules.all (fun p => Mono Gen.codes p.2) = true := by decide
+
+/-- a validator built from `Mono` rule trees relaxes when the mode is switched on -/
+theorem treeValidator_relaxes (layouts : List RecLayout) (rules : List (String × Stmt)) (codes : Codes)
+    (b64 : Bytes → Option Bytes) (hm : rules.all (fun p => Mono codes p.2) = true) (n : String) (v v' : Vals)
+    (h : treeValidator layouts rules codes b64 false n v = (none, v')) :
+    treeValidator layouts rules codes b64 true n v = (none, v') := by
+  unfold treeValidator at h ⊢
+  cases hf : rules.find? (fun p => p.1 == n) with
+  | none => simp [hf] at h
+  | some p =>
+    simp only [hf] at h ⊢
+    have hp : Mono codes p.2 = true := by
+      simp only [List.all_eq_true] at hm
+      exact hm p (List.mem_of_find?_eq_some hf)
+    let cx : VCtx := { codes := codes, write := ((layouts.find? (fun L => L.name == n)).getD default).write, b64 := b64, frb := true }
+    have hoff : validate (cx.withFrb false) p.2 v = (none, v') := h
+    show validate (cx.withFrb true) p.2 v = (none, v')
+    unfold validate at hoff ⊢
+    cases he : evalS (cx.withFrb false) p.2 v with
+    | cont w =>
+      rw [he] at hoff
+      simp only [Prod.mk.injEq, true_and] at hoff
+      subst hoff
+      rw [mono_sound cx p.2 v w hp he]
+    | rejected f => rw [he] at hoff; simp at hoff
+    | stuck => rw [he] at hoff; simp at hoff
+
+/-- the regenerated model with the mode on relaxes the regenerated model with the mode off -/
+theorem gen_relaxes (now : Date) : Relaxes (genModel false now) (genModel true now) where
+  layouts := rfl
+  cm := rfl
+  now := rfl
+  frb0 := rfl
+  val := fun k v v' h => treeValidator_relaxes Gen.all Gen.allRules Gen.codes b64Go allRules_mono k.goName v v' h
+
+/-- the lines the reader is fed -/
+def linesOf (e : Enc) (x : Bytes) : List Bytes := (if e.lp then splitLP x else (splitNL x, true)).1
+
+/-- **C19, reader level**: an input read without error by `m0` is read without error by any `m1` that
+relaxes it, into the same file (hypothesis for EBCDIC input: `NoSubst` on every line) -/
+theorem C19_read_relaxes (m0 m1 : Model) (hR : Relaxes m0 m1) (e : Enc) (x : Bytes) (f : File Vals)
+    (hs : ∀ l ∈ linesOf e x, NoSubst m1 e l)
+    (h : readFile m0 e x = (f, none)) : readFile m1 e x = (f, none) := by
+  unfold readFile at h ⊢
+  unfold linesOf at hs
+  cases hsp : (if e.lp then splitLP x else (splitNL x, true)) with
+  | mk lines clean =>
+    rw [hsp] at h hs
+    simp only at h hs ⊢
+    have hinit : Eqv (initState m0) (initState m1) := by
+      refine ⟨rfl, ?_, rfl, rfl, rfl⟩
+      simp [initState, hR.layout, hR.now]
+    cases hr : readLines m0 e lines (initState m0) with
+    | mk sf er =>
+      rw [hr] at h
+      cases er with
+      | some x => simp at h
+      | none =>
+        obtain ⟨tf, ht, hc, c1, c2, c3, c4⟩ := hR.readLines e lines hs _ sf _ hinit hr
+        rw [ht]
+        have hcl : tf.cashLetters = sf.cashLetters := by
+          have := congrArg C04.Core.cashLetters hc; simpa [RState.core] using this
+        have hcur : tf.cur = sf.cur := by
+          have := congrArg C04.Core.cur hc; simpa [RState.core] using this
+        have hfile : tf.file = sf.file := by simp [RState.file, c1, c2, hcl]
+        simp only [hfile, c2, c3, hcur] at h ⊢
+        split at h
+        · simp at h
+        · split at h
+          · simp at h
+          · split at h
+            · simp at h
+            · split at h
+              · simp at h
+              · rename_i h1 h2 h3 h4
+                simp only [h1, h2, h3, h4]
+                exact h
+
+/-- **C19 for ASCII input**, no further hypothesis -/
+theorem C19_read_relaxes_ascii (m0 m1 : Model) (hR : Relaxes m0 m1) (e : Enc) (he : e.ebcdic = false) (x : Bytes)
+    (f : File Vals) (h : readFile m0 e x = (f, none)) : readFile m1 e x = (f, none) :=
+  C19_read_relaxes m0 m1 hR e x f (fun l _ => noSubst_ascii m1 e he l) h
+
+/-- **C19 for the regenerated model**: every ASCII input the current reader accepts with the mode off
+it accepts with the mode on, and decodes to the same file -/
+theorem C19_gen_ascii (now : Date) (e : Enc) (he : e.ebcdic = false) (x : Bytes) (f : File Vals)
+    (h : readFile (genModel false now) e x = (f, none)) : readFile (genModel true now) e x = (f, none) :=
+  C19_read_relaxes_ascii _ _ (gen_relaxes now) e he x f h
+
+/-- **C19 for the regenerated model, EBCDIC input** whose addendum A lines contain none of the bytes the
+mode substitutes -/
+theorem C19_gen_ebcdic (now : Date) (e : Enc) (x : Bytes) (f : File Vals)
+    (hs : ∀ l ∈ linesOf e x, kindOfLine l = some .cdAddA → ∀ b ∈ l, b ≠ 0xAD ∧ b ≠ 0xBD ∧ b ≠ 0x5F)
+    (h : readFile (genModel false now) e x = (f, none)) : readFile (genModel true now) e x = (f, none) := by
+  refine C19_read_relaxes _ _ (gen_relaxes now) e x f (fun l hl hk _ _ => ?_) h
+  have hb := hs l hl hk
+  simp only [ibm1047, if_true]
+  conv => rhs; rw [← List.map_id l]
+  apply List.map_congr_left
+  intro b hbl
+  obtain ⟨h1, h2, h3⟩ := hb b hbl
+  simp [h1, h2, h3]
 
 end Icl.C19
